@@ -291,5 +291,8 @@ fn clip_batch_trivial_paths() {
 // corner, (0,0,0,1) (3,0,0,1) (0,3,0,1), with the concrete linear attribute 2x+10y-3z+5w, asserting two output triangles, every
 // vertex inside the frustum and attribute = field(position) within 1e-3: no verdict in 40 min, 9 GB (timeout).  Even with all
 // control constant the clip step stays out of reach; seed C03c (attribute interpolation skipped at frustum corners) is missed.
+// (10) the same triangle and attribute, ONE plane: PLANES[3].clip_simple_polygon on a stack array (only the output is a Vec),
+// asserting the quad (0,0) (1,0) (1,2) (0,3), kept vertices unchanged and attribute = field(position): CBMC aborts after 10 min
+// ("CBMC failed", as in (8)).
 
 include!("gen/dispatch_clip.rs");
